@@ -660,6 +660,57 @@ def observe(case, want_moves=True):
     res["moves"] = moves
     if fresh:
         res["move_leaf_results"] = leaf_results      # what the (real) leaf itself answered
+    # ---- consistency probes that involve widget state kept between calls (empty lists when everything agrees) ----
+    res["cold_mouse_bad"], res["press_cursor_bad"] = [], []
+    if want_moves:
+        grid = drawn_grid(res)
+        rect = {l[0]: l for l in leaves}
+        leafcells = [(x, y) for y in range(res["rows"]) for x in range(res["cols"]) if grid[y][x] >= 0]
+        # (1) the event reaches a tree that was never rendered at this size: never rendered at all / last rendered wider
+        sample = leafcells if fresh else leafcells[:: max(1, len(leafcells) // 6)][:6]
+        other = ((size[0] + 3,) + tuple(size[1:])) if size else None
+        for (x, y) in sample:
+            i = grid[y][x]
+            for variant in ("never-rendered", "rendered-wider"):
+                s3 = Subject(case)
+                if variant == "rendered-wider":
+                    if other is None:
+                        continue
+                    try:
+                        s3.w.render(other, True)
+                    except Exception:  # noqa: BLE001
+                        continue
+                del s3.ctx.log[:]
+                try:
+                    s3.w.mouse_event(size, "mouse press", 1, x, y, True)
+                    got = [[e[1], e[3], e[4]] for e in s3.ctx.log if e[0] == "mouse"]
+                except Exception as e:  # noqa: BLE001
+                    got = err(e)
+                if got != [[i, x - rect[i][1], y - rect[i][2]]]:
+                    res["cold_mouse_bad"].append([variant, x, y, i, rect[i][1], rect[i][2], got])
+        # (2) a press that moves the focus, with the first canvas still referenced (as the screen does) and the
+        #     canvas cache in play: afterwards get_cursor_coords must still equal the cursor of the focused rendering
+        from urwid import CanvasCache
+        picks, seen = [], set()
+        for (x, y) in leafcells:
+            if grid[y][x] not in seen:
+                seen.add(grid[y][x])
+                picks.append((x, y))
+        for (x, y) in picks[:5]:
+            s4 = Subject(case)
+            CanvasCache.clear()
+            try:
+                keep = s4.w.render(size, True)          # stays referenced
+                s4.w.mouse_event(size, "mouse press", 1, x, y, True)
+                g = s4.gcursor()
+                rc4 = s4.w.render(size, True).cursor     # the cache is NOT cleared
+            except Exception:  # noqa: BLE001
+                continue
+            del keep
+            rc4 = None if rc4 is None else list(rc4)
+            if not isinstance(g, str) and g != rc4:
+                res["press_cursor_bad"].append([x, y, g, rc4])
+        CanvasCache.clear()
     return res
 
 
@@ -1000,6 +1051,12 @@ def judge(case, res):
         msgs.append(f"get_cursor_coords reports {g} but the focused rendering has its cursor at {r}")
     else:
         note("cursor-agree:" + ("some" if g else "none"))
+    for variant, x, y, i, x0, y0, got in res.get("cold_mouse_bad", []):
+        msgs.append(f"mouse press at ({x},{y}) on a tree {variant} at this size: leaf {i} is drawn there at ({x0},{y0}) "
+                    f"but the event went to {got} (expected [[{i}, {x - x0}, {y - y0}]])")
+    for x, y, g4, rc4 in res.get("press_cursor_bad", []):
+        msgs.append(f"after a button-1 press at ({x},{y}) get_cursor_coords reports {g4} but the next focused rendering "
+                    f"(first canvas still referenced, canvas cache in use) has its cursor at {rc4}")
     gf = res.get("gcursor_fresh", g)
     if gf != g and not isinstance(g, str):
         if isinstance(gf, str):
@@ -1363,6 +1420,7 @@ class C09(core.Check):
                 g2, rc2 = cres(), oxy()
                 moves.append([ok, calls, g2 if res["hascur"] else "noattr", rc2] if res["hasmove"] else "noattr")
             res["moves"] = moves
+            res["cold_mouse_bad"], res["press_cursor_bad"] = [], []     # the model has no state between calls
         except StopIteration:
             return {"malformed": ints[:50]}
         return res
